@@ -55,6 +55,8 @@ def gen_profile(rng, focus=None):
     p["mainwp"] = rng.random() < 0.4
     p["same_step"] = rng.random() < 0.4  # equal work amounts so linked tasks hit zero together
     p["shuffle_list"] = rng.random() < 0.35  # workflow.task_list not in dependency order
+    p["dup_names"] = rng.random() < 0.12  # two tasks share a name (skills are keyed by task name)
+    p["assign_list"] = rng.random() < 0.15  # workflow built with `wf.task_list = [...]` (parent_workflow set lazily)
     p.update(focus)
     if not p["comps"]:
         p["facilities"] = p["nested"] = p["conveyor"] = False
@@ -227,6 +229,11 @@ def gen_model(rng, p, n_tasks=None):
                 if rng.random() < 0.35:
                     f["abs"] = gen_absence(rng, 14, rng.randint(1, 4))
     m = {"tasks": tasks, "deps": deps, "teams": teams, "comps": comps, "wps": wps}
+    if p.get("dup_names") and n > 1:
+        a, b = rng.sample(range(n), 2)
+        tasks[b]["name"] = tasks[a].get("name", tasks[a]["id"])
+    if p.get("assign_list"):
+        m["assign_list"] = True
     if p.get("shuffle_list") and n > 1:
         order = list(range(n))
         rng.shuffle(order)
@@ -310,6 +317,7 @@ def gen_feasible(rng, p):
     p["conveyor"] = False
     p["auto_comp"] = False
     p["untargeted"] = False
+    p["dup_names"] = False  # the construction below reasons about eligibility per task
     m = gen_model(rng, p)
     tasks = m["tasks"]
     for t in tasks:
@@ -380,8 +388,9 @@ def make_infeasible(rng, m):
     if how == "zero_skill":
         for tm in m["teams"]:
             for w in tm["workers"]:
-                if t["id"] in w["skills"]:
-                    w["skills"][t["id"]] = 0.0
+                nm = t.get("name", t["id"])
+                if nm in w["skills"]:
+                    w["skills"][nm] = 0.0
     elif how == "untarget":
         for tm in m["teams"]:
             if i in tm["targets"]:
@@ -389,3 +398,13 @@ def make_infeasible(rng, m):
     else:
         t["fixw"] = []
     return m, i, how
+
+
+def append_task(m, task, rng=None):
+    """Append a task to a generated model, keeping the optional workflow.task_list order consistent."""
+    m["tasks"].append(task)
+    i = len(m["tasks"]) - 1
+    if m.get("order"):
+        pos = rng.randint(0, len(m["order"])) if rng is not None else len(m["order"])
+        m["order"].insert(pos, i)
+    return i
